@@ -198,10 +198,10 @@ NOT_YET = {
 # what later rounds added to each check (appended to the level text)
 ADDED = {
     "C02": "Also: the application withdrawing a request (held back or in flight) as a fault - the others must not notice; a request submitted "
-           "by another task while the shutdown is under way. A retry that re-sends the same Message object; answers name the request datagram they answer; errnos that Python maps to builtin exception classes. A confirmable forgery under message ID 0; a Reset for a finished request whose exchange is still open. The same Message object submitted again while its first request is outstanding.",
+           "by another task while the shutdown is under way. A retry that re-sends the same Message object; answers name the request datagram they answer; errnos that Python maps to builtin exception classes. A confirmable forgery under message ID 0; a Reset for a finished request whose exchange is still open. The same Message object submitted again while its first request is outstanding. A request withdrawn in the loop pass in which a Reset or a transport error for it is read.",
     "C01": "Also: whole datagrams of 64..4096 bytes through the real recvmsg transport over a fake socket that cuts like the kernel. An ordinary datagram parsed again after 3000 datagrams with unregistered option numbers.",
     "C07": "Also: same-message-ID copies of notifications and of the terminating response after a pause; a late first response. Requests whose tuning is a class. A consumer busy in the loop body while notifications and the end arrive. A consumer whose wait timed out and who comes back to the iterator.",
-    "C08": "Also: the notification that ends a registration is itself sent, also behind an unacknowledged one. An observer with two registrations that never acknowledges; a state change in the loop pass in which a Reset is read. Exactly one change while the previous re-rendering is under way.",
+    "C08": "Also: the notification that ends a registration is itself sent, also behind an unacknowledged one. An observer with two registrations that never acknowledges; a state change in the loop pass in which a Reset is read. Exactly one change while the previous re-rendering is under way. Confirmable and non-confirmable notifications in one registration; a registration only goes away for a reason that concerns its own endpoint.",
     "C14": "Also: withdrawal of the request whose exchange is open; colliding message IDs. Client requests behind the node's own separate response (acknowledged late or never); the second endpoint is another port of the same host. Held-back requests fail with the error class of what happened to the remote. Held-back messages across the wrap of the message-ID counter.",
     "C04": "Also: the same (endpoint, ID) under another token and towards a second server endpoint of the process; three long prefixes (duplicate inside the lifetime, re-use after the expiry, the instant old timers are due) behind which the search continues. Request message IDs 0/1/2 with the server's counter wrapping onto them; an acknowledged separate response whose own ID equals the request's; every ACK names a received request. The request and seven copies of it. A separate response sent non-confirmably under the request's message ID.",
     "C13": "Also: process death between two operations (a lifetime without any file-system effect) as an operation of the histories. Histories across the numbers where the Partial IV grows by a byte or ends in zero bytes. Operations run inside a running loop; executor jobs are deferred and die with the process. Responses at the end of the number space.",
@@ -209,11 +209,11 @@ ADDED = {
            "TransportTuning subclass, a CON that had to wait behind two requests answered in turn, and a follower held back behind it and withdrawn. A CON without a tuning of its own after another message's default tuning was edited.",
     "C05": "Also: a conforming server that states its own larger SZX in its 2.31s; later blocks refused (4.08 / 5.03) or answered without Block2; "
            "requests carry Content-Format / Accept / query and Block2 follow-ups must be the same request; a stateless server (2.04, M=0 on every block); large responses to a client limited to smaller blocks. Managed requests that carry the application's own Block2 option. Transfers whose block numbers need the third option byte.",
-    "C06": "Also: empty and double-size non-final continuations; transfers that differ only in Request-Tag or Accept; cache / spool running empty and being refilled. Combined Block1 + Block2 transfers. A representation that is sometimes empty; an entry replaced shortly before a sweep.",
+    "C06": "Also: empty and double-size non-final continuations; transfers that differ only in Request-Tag or Accept; cache / spool running empty and being refilled. Combined Block1 + Block2 transfers. A representation that is sometimes empty; an entry replaced shortly before a sweep. Requests asking for the reserved size exponent 7.",
     "C09": "Also: observable resources (declined / accepted registration) x every outcome, No-Response x outcomes, and neighbours while the "
            "acknowledgement of a separate response is lost for good. Messages that pass for a response but cannot be serialised; the failing request's own final response among neighbours. Requests under message ID 0 (the acknowledgement names the request); sequences of requests at a context without a site. Non-ASCII diagnostics; a discovery filter that matches nothing.",
     "C10": "Also: the transport tuning's reliability preference (class and instance) x multicast destinations; the peer's message carrying "
-           "the node's own just-acknowledged message ID; a ping received on a multicast address gets its Reset; a second copy of a CON request around EMPTY_ACK_DELAY (acknowledged exactly once); a multicast request given up. Exchanges with the peer's other port while a CON to its first port is open; a transport error before a duplicate. The node's own request on the token of the peer's request still in its handler; the node as a forward proxy.",
+           "the node's own just-acknowledged message ID; a ping received on a multicast address gets its Reset; a second copy of a CON request around EMPTY_ACK_DELAY (acknowledged exactly once); a multicast request given up. Exchanges with the peer's other port while a CON to its first port is open; a transport error before a duplicate. The node's own request on the token of the peer's request still in its handler; the node as a forward proxy. A request whose answer cannot be serialised is still acknowledged exactly once.",
     "C11": "Also: every rejected forgery is followed by the genuine message on the same recipient; foreign contexts include absent vs empty ID "
            "context and another salt, for requests and responses; all 12 registered AEAD algorithms in both tiers; no nonce re-used by the Echo challenge "
            "after a loss of replay state; response binding across a process death; the outer code depends on Observe alone. The server-side choice of the context from a credentials map (four ID contexts in every order). The real client transport against the real site wrapper over the virtual network (Echo recovery, observation, swapped responses). Non-confirmable requests through the transports; contexts loaded from directories with every admissible ID length. No nonce is used twice through the transports; block-wise state of a protected exchange is not served outside the context.",
@@ -223,10 +223,10 @@ ADDED = {
     "C16": "Also: the destination (scheme, host, port) of every accepted authority; sub-delims, ':' and '@' standing unescaped in segments; composition with Uri-Host / Uri-Port options. The options of a CoAP URI do not depend on what the message carried before (set again, copy(uri=)). The same URI under another scheme as predecessor. Hosts with every upper-case letter behind a percent-escape.",
     "C17": "Also: every Uri-Path-Abbrev value routed like the spelled-out path over six .well-known trees (nested sites included); bodies arriving in Block1 blocks below nested sites. Resource objects that are false in a boolean context. One Site object mounted under several prefixes; listings for unicast requesters are not marked for suppression.",
     "C18": "Also: an observation whose first notification is block-wise, and consumers that subscribe only after the shutdown (errback and async iteration), a cancelled consumer task, "
-           "CON notifications acknowledged late, a bystander server context, a bystander that is a client of the victim, requests submitted while the shutdown is under way, the application cancelling and shutting down in one step. A datagram of the peer becoming readable while the shutdown is under way. A request submitted in the very step that starts the shutdown; a handler whose clean-up outlasts the time-out.",
+           "CON notifications acknowledged late, a bystander server context, a bystander that is a client of the victim, requests submitted while the shutdown is under way, the application cancelling and shutting down in one step. A datagram of the peer becoming readable while the shutdown is under way. A request submitted in the very step that starts the shutdown; a handler whose clean-up outlasts the time-out. A datagram (request, response or acknowledgement) read in the very pass in which the shutdown begins.",
     "C19": "Also: a request answered with an error leaves the served tree unchanged (no left-over spool files); If-None-Match combined with If-Match. Every spelling of the root after the tree has been emptied through the server; a replacement through the server between two fetches. Compatibility forms of dots and slashes in path components. The root given as '.' with the home directory elsewhere.",
     "C20": "Also: values that need quoting in lookup results (double quote, trailing backslash), an update that sets an explicit base, conjunctive lookup filters, "
-           "a valid lt next to an invalid parameter in one update, re-registration without parameters. Simple registration with every outcome of the link fetch; updates with several parameters. Endpoint names that spell like name.sector of another registration; updates of a moved endpoint. Empty parameter and attribute values; an update that spells out the implicit base.",
+           "a valid lt next to an invalid parameter in one update, re-registration without parameters. Simple registration with every outcome of the link fetch; updates with several parameters. Endpoint names that spell like name.sector of another registration; updates of a moved endpoint. Empty parameter and attribute values; an update that spells out the implicit base. A link with a repeated attribute.",
 }
 
 
